@@ -1,0 +1,4 @@
+// Package verifhook provides named yield points used by the external verification harness
+// (/verif) to own the schedule of a few check-then-act windows. Without the build tag
+// "verif" Yield is an empty function that the compiler inlines away.
+package verifhook
